@@ -232,6 +232,9 @@ func genStep(rt *rapid.T, p *Profile, cfg *Config, i int) Step { //nolint:cyclop
 		if !st.Retx && rapid.IntRange(0, 5).Draw(rt, "afterRefresh0") == 0 {
 			st.Rel, st.RespLost = "after-refresh0", false // Refresh(0) and the new Allocate back to back
 		}
+		if (p.Odd || p.Name == "C04") && rapid.IntRange(0, 4).Draw(rt, "dupDatagram") == 0 {
+			st.Dup = true // the network delivers the request twice
+		}
 		if p.Odd {
 			if rapid.IntRange(0, 7).Draw(rt, "txfrom") == 0 {
 				st.TxFrom = rapid.IntRange(1, nc).Draw(rt, "txFromC")
